@@ -2,6 +2,7 @@ from shexer.io.graph.yielder.base_triples_yielder import BaseTriplesYielder
 from shexer.utils.uri import remove_corners, unprefixize_uri_mandatory, unprefixize_uri_if_possible
 from shexer.utils.triple_yielders import tune_subj, tune_prop, tune_token
 import re
+from urllib.parse import urljoin
 
 _OTHER_BLANKS = re.compile("[\r\n\t]")
 _SEVERAL_BLANKS = re.compile("  +")
@@ -385,12 +386,9 @@ class BigTtlTriplesYielder(BaseTriplesYielder):
     def _parse_cornered_element(self, cornered_element):
         if self._base is None:
             return cornered_element  # There is no base
-        elif cornered_element[1] in _INI_BASE_URIS:
-            return "<" + self._base + cornered_element[2:-1] + ">"
-        elif not cornered_element[1:].startswith("http"):
-            return "<" + self._base + cornered_element[1:-1] + ">"
-        else:
-            return cornered_element  # Nothing to do with base
+        # Relative IRIs ("<Jimmy>", "</Sarah>", "<#Bella>", "<../x>") are resolved against the base as any Turtle
+        # parser does (RFC 3986); absolute IRIs, whatever their scheme, are left as they are.
+        return "<" + urljoin(self._base, cornered_element[1:-1]) + ">"
 
     @property
     def yielded_triples(self):
